@@ -1,0 +1,23 @@
+//go:build verif
+
+package exec
+
+import (
+	"context"
+
+	"github.com/theory/sqljson/path/ast"
+)
+
+// VerifStep, when set, is called at the start of every path item evaluation,
+// before the context is polled. It exists only in builds tagged "verif" and
+// lets an external simulator observe and schedule evaluation steps. It must
+// be assigned before any execution starts.
+//
+//nolint:gochecknoglobals
+var VerifStep func(ctx context.Context, node ast.Node)
+
+func verifStep(ctx context.Context, node ast.Node) {
+	if VerifStep != nil {
+		VerifStep(ctx, node)
+	}
+}
